@@ -5,6 +5,7 @@ import (
 	"fmt"
 	"os"
 	"path/filepath"
+	"runtime/debug"
 	"sort"
 	"strings"
 	"sync"
@@ -149,7 +150,7 @@ func runPatchWitnesses(repo, vd, prop, sub, kind string, ff *FindingsFile) []Wit
 	dirs, _ := filepath.Glob(filepath.Join(vd, sub, prop+"-*"))
 	sort.Strings(dirs)
 	out := make([]WitnessResult, len(dirs))
-	sem := make(chan struct{}, 4)
+	sem := witnessSem
 	var wg sync.WaitGroup
 	for i, d := range dirs {
 		wg.Add(1)
@@ -163,6 +164,7 @@ func runPatchWitnesses(repo, vd, prop, sub, kind string, ff *FindingsFile) []Wit
 				}
 			}()
 			out[i] = runPatchWitness(repo, prop, sub, kind, d, ff)
+			debug.FreeOSMemory()
 		}(i, d)
 	}
 	wg.Wait()
@@ -196,6 +198,7 @@ func runPatchWitness(repo, prop, sub, kind, d string, ff *FindingsFile) WitnessR
 			return res
 		}
 		pr := runProp(w, prop, "quick", ff)
+		w.Release()
 		switch {
 		case kind == "neutral" && len(pr.violations) == 0:
 			res.Status, res.Msg = "silent", "behaviour-preserving refactoring raised no report"
